@@ -7,6 +7,9 @@
    c02.enc fixed <LF|CRLF|CR> <withoutHeader> <ncols> <nrows> <hdr…> <cells…>       (automatic positions)
    c02.encp fixed <LF|CRLF|CR> <withoutHeader> <npos> <pos…> <ncols> <nrows> <hdr…> <cells…>
    c02.dec fixed <noHeader> <withoutNull> <npos> <pos…> <hex>                       (explicit positions)
+   c02.encs fixed <withoutHeader> <strip> <LF|CRLF|CR> <npos> <pos…> <ncols> <nrows> <hdr…> <cells…>   SINGLE-LINE file (`S[…]`),
+                                                 as EncodeView writes it and as COMMIT / --out leave it (no ending line break)
+   c02.decs fixed <withoutNull> <npos> <pos…> <hex>                                 the loader on a single-line file
    c02.fpos <noHeader> <hex>                     fixed-length, the automatic delimiter positions: `P p1 p2 …`
    c02.deca fixed <noHeader> <withoutNull> <hex>                                    (automatic positions)
    c02.tenc <ENCODING> <hex of the UTF-8 text>   the bytes the transform writer produces (hex)
@@ -21,6 +24,13 @@
    c02.jspell <ncols> <hdr…>                     column names as JSON paths: `spell` (no name is a prefix path of another, no
                                                  empty segment: the writers must carry them) | `refuse` (they must not write)
    c02.jlb <hex bytes>                           the line break of a JSON / JSON Lines file: LF | CRLF | CR | -
+   c02.jsload json|jsonq <value>                 the structure mapping of the JSON loader (Csvq.Model.JsonStruct): LoadTable with the
+                                                 empty query / the query `{}` on a decoded value; `-` alone = no value (empty text)
+   c02.jslines <nlines> <line>…                  … of the JSON Lines loader; a line is `b` (blank) | `x<hex text>` (raw text: the
+                                                 model scans and parses it) | a value
+   c02.jswrite <ncols> <nrows> <hdr…> <cells…>   ConvertTableValueToJsonStructure: the array of nested objects as a value | E
+   c02.jsrt <ncols> <nrows> <hdr…> <cells…>      load(structure(table)): `<JSON table> || <JSON Lines table>` | E (refused)
+       a JSON value in prefix form: `n` | `t` | `f` | `s<hex>` | `d<hex number literal>` | `a<k>` item… | `o<k>` (`k<hex>` value)…
    c02.nop                                                                          (law-only case)
 
    delim = code point (decimal); booleans 0/1; text = hex of UTF-8; header tokens `S<hex>`;
@@ -35,6 +45,7 @@ import Csvq.Model.Fixed
 import Csvq.Model.FixedAuto
 import Csvq.Model.Json
 import Csvq.Model.JsonPath
+import Csvq.Model.JsonStruct
 import Csvq.Model.Encoding
 namespace Csvq.Drive
 open Csvq Csvq.Proto
@@ -199,6 +210,34 @@ def decFixed (args : List String) : String :=
     | _, _, _ => "bad-op"
   | _ => "bad-op"
 
+def encFixedS (args : List String) : String :=
+  match args with
+  | wh :: st :: lb :: rest =>
+    match parseBool wh, parseBool st, parseLB lb, parsePositions rest with
+    | some wh, some st, some lb, some (ps, tbl) =>
+      match parseTable parseFCell tbl with
+      | some (h, rows) =>
+        match Fixed.fileFixedS wdUtf8 { lb := lb, withoutHeader := wh } ps st ⟨h, rows⟩ with
+        | .ok cs => hexOut cs
+        | .error _ => "E"
+      | none => "bad-op"
+    | _, _, _, _ => "bad-op"
+  | _ => "bad-op"
+
+def decFixedS (args : List String) : String :=
+  match args with
+  | wn :: rest =>
+    match parseBool wn, parsePositions rest with
+    | some wn, some (ps, [hx]) =>
+      match unhexText hx with
+      | some inp =>
+        match Fixed.decodeFixedS wdUtf8 { withoutNull := wn } ps inp with
+        | .ok t => showDTable (Fixed.detectLBS wdUtf8 ps inp) t
+        | .error _ => "E"
+      | none => "bad-op"
+    | _, _ => "bad-op"
+  | _ => "bad-op"
+
 def fpos (args : List String) : String :=
   match args with
   | [nh, hx] =>
@@ -358,6 +397,138 @@ def jlb (args : List String) : String :=
     | none => "bad-op"
   | _ => "bad-op"
 
+/-! the structure mapping (Csvq.Model.JsonStruct) -/
+
+mutual
+/-- a JSON value in prefix form, and the remaining tokens -/
+def parseJS : Nat → List String → Option (Json.JS × List String)
+  | 0, _ => none
+  | _, [] => none
+  | n + 1, tok :: rest =>
+    let body := (tok.drop 1).toString
+    if tok = "n" then some (.null, rest)
+    else if tok = "t" then some (.bool true, rest)
+    else if tok = "f" then some (.bool false, rest)
+    else match tok.front with
+      | 's' => (unhexText body).map fun s => (.str s, rest)
+      | 'd' => (unhexText body).map fun a => (.num a, rest)
+      | 'a' =>
+        match body.toNat? with
+        | some k => (parseJSItems n k rest).map fun p => (.arr p.1, p.2)
+        | none => none
+      | 'o' =>
+        match body.toNat? with
+        | some k => (parseJSMembers n k rest).map fun p => (.obj p.1, p.2)
+        | none => none
+      | _ => none
+
+def parseJSItems : Nat → Nat → List String → Option (List Json.JS × List String)
+  | 0, _, _ => none
+  | _ + 1, 0, rest => some ([], rest)
+  | n + 1, k + 1, rest =>
+    match parseJS n rest with
+    | some (v, r) => (parseJSItems n k r).map fun p => (v :: p.1, p.2)
+    | none => none
+
+def parseJSMembers : Nat → Nat → List String → Option (List (List Char × Json.JS) × List String)
+  | 0, _, _ => none
+  | _ + 1, 0, rest => some ([], rest)
+  | n + 1, k + 1, key :: rest =>
+    if key.front = 'k' then
+      match unhexText (key.drop 1).toString, parseJS n rest with
+      | some ks, some (v, r) => (parseJSMembers n k r).map fun p => ((ks, v) :: p.1, p.2)
+      | _, _ => none
+    else none
+  | _ + 1, _ + 1, [] => none
+end
+
+mutual
+def showJS : Json.JS → List String
+  | .null => ["n"]
+  | .bool true => ["t"]
+  | .bool false => ["f"]
+  | .str s => ["s" ++ hexOut s]
+  | .num a => ["d" ++ hexOut a]
+  | .arr is => ("a" ++ toString is.length) :: showJSItems is
+  | .obj ms => ("o" ++ toString ms.length) :: showJSMembers ms
+
+def showJSItems : List Json.JS → List String
+  | [] => []
+  | x :: xs => showJS x ++ showJSItems xs
+
+def showJSMembers : List (List Char × Json.JS) → List String
+  | [] => []
+  | (k, v) :: ms => ("k" ++ hexOut k) :: (showJS v ++ showJSMembers ms)
+end
+
+def showLoad : Except Csv.Err Csv.DTable → String
+  | .ok t => showDTable none t
+  | .error _ => "E"
+
+def jsload (args : List String) : String :=
+  match args with
+  | q :: toks =>
+    let v : Option (Option Json.JS) :=
+      if toks = ["-"] then some none
+      else match parseJS (2 * toks.length + 2) toks with
+        | some (j, []) => some (some j)
+        | _ => none
+    match v with
+    | some v =>
+      if q = "json" then showLoad (Json.loadTable modelCanon v)
+      else if q = "jsonq" then showLoad (Json.loadTableQ modelCanon v)
+      else "bad-op"
+    | none => "bad-op"
+  | _ => "bad-op"
+
+/-- the lines of a jslines op: `some (.ok v)` per line, `.error` = the raw text does not scan / parse -/
+def parseJSLines : Nat → Nat → List String → Option (List (Except Csv.Err (Option Json.JS)))
+  | 0, _, _ => none
+  | _ + 1, 0, [] => some []
+  | _ + 1, 0, _ :: _ => none
+  | _ + 1, _ + 1, [] => none
+  | n + 1, k + 1, tok :: rest =>
+    if tok = "b" then (parseJSLines n k rest).map (.ok none :: ·)
+    else if tok.front = 'x' then
+      match unhexText (tok.drop 1).toString with
+      | some txt => (parseJSLines n k rest).map (Json.decode modelCanon txt :: ·)
+      | none => none
+    else
+      match parseJS (2 * rest.length + 4) (tok :: rest) with
+      | some (j, r) => (parseJSLines n k r).map (.ok (some j) :: ·)
+      | none => none
+
+def jslines (args : List String) : String :=
+  match args with
+  | k :: toks =>
+    match k.toNat? with
+    | some k =>
+      match parseJSLines (toks.length + 2) k toks with
+      | some ls =>
+        -- the reader stops at the first line that does not parse: an error wherever it stands
+        match ls.mapM (fun (l : Except Csv.Err (Option Json.JS)) => match l with | .ok v => some v | .error _ => none) with
+        | some vs => showLoad (Json.loadJsonLines modelCanon vs)
+        | none => "E"
+      | none => "bad-op"
+    | none => "bad-op"
+  | _ => "bad-op"
+
+def jswrite (args : List String) : String :=
+  match parseTable parseJCell args with
+  | some (h, rows) =>
+    match Json.tableStructure ⟨h, rows⟩ with
+    | some js => String.intercalate " " (showJS (.arr js))
+    | none => "E"
+  | none => "bad-op"
+
+def jsrt (args : List String) : String :=
+  match parseTable parseJCell args with
+  | some (h, rows) =>
+    match Json.tableStructure ⟨h, rows⟩ with
+    | some js => showLoad (Json.loadTable modelCanon (some (.arr js))) ++ " || " ++ showLoad (Json.loadJsonLines modelCanon (js.map some))
+    | none => "E"
+  | none => "bad-op"
+
 end C02
 
 def c02 (cmd : String) (args : List String) : String :=
@@ -370,6 +541,8 @@ def c02 (cmd : String) (args : List String) : String :=
   | "encp", "fixed" :: rest => C02.encFixed true rest
   | "dec", "fixed" :: rest => C02.decFixed rest
   | "deca", "fixed" :: rest => C02.decFixedAuto rest
+  | "encs", "fixed" :: rest => C02.encFixedS rest
+  | "decs", "fixed" :: rest => C02.decFixedS rest
   | "fpos", rest => C02.fpos rest
   | "tenc", rest => C02.tenc rest
   | "tdec", rest => C02.tdec rest
@@ -379,6 +552,10 @@ def c02 (cmd : String) (args : List String) : String :=
   | "jdec", rest => C02.jdec rest
   | "jspell", rest => C02.jspell rest
   | "jlb", rest => C02.jlb rest
+  | "jsload", rest => C02.jsload rest
+  | "jslines", rest => C02.jslines rest
+  | "jswrite", rest => C02.jswrite rest
+  | "jsrt", rest => C02.jsrt rest
   | "nop", [] => "ok"     -- a case whose law is checked on the implementation alone
   | _, _ => "bad-op"
 
